@@ -396,6 +396,8 @@ func rulesC05(e *Engine, r *Report) {
 	// ---------------------------------------------------------------- R05.12
 	r.Rule("R05.12", "one version, one record: the record that finalize() logs and delivers is the one the cache holds (the version validated last) - a newer version of a parked file replaces the parked record, and a stale record is dropped - so that the receive log, which duplicate suppression falls back on after a restart, carries the hash of the bytes that were delivered")
 	e.checkCurrentVersionFinalized(r, "R05.12")
+	// ---------------------------------------------------------------- R05.13
+	e.shareRule(r, "C18", "R18.6", "R05.13", "a delivery is on record where the refill will read it: the receive log re-opens its day file when the file has vanished from its path (log housekeeping), so records of later deliveries do not go to an unlinked inode - after a restart those deliveries would be unknown and their retransmissions delivered again")
 }
 
 func nameOr(m map[string]string, k string) string {
